@@ -224,12 +224,37 @@ func RunDec(c *core.Ctx) {
 			sort.Strings(extra)
 			c.Check(len(missing) == 0 && len(extra) == 0, "DEC.cases", m.Q()+" case labels", fmt.Sprintf("%d arms = %d schema fields", len(dm.Arms), len(m.Fields)),
 				fmt.Sprintf("fields without an arm (decoded as unknown): %v; arms for numbers not in the schema: %v", missing, extra), mpos, src)
+			// no explicit panic and no single-result type assertion beyond the prologue's message cast
+			nPanic, nAssert := 0, 0
+			ast.Inspect(m.Unmarshal.Body, func(x ast.Node) bool {
+				switch t := x.(type) {
+				case *ast.CallExpr:
+					if id, ok := t.Fun.(*ast.Ident); ok && id.Name == "panic" {
+						nPanic++
+					}
+				case *ast.TypeAssertExpr:
+					nAssert++
+				}
+				return true
+			})
+			c.Check(nPanic == 0 && nAssert == 1, "BND.nopanic", m.Q()+" unmarshal closure", "no panic call; the only type assertion is the prologue's message cast",
+				fmt.Sprintf("%d panic call(s) and %d type assertion(s) in the decoder", nPanic, nAssert), mpos, src)
+			a32 := map[string]bool{}
+			for _, a := range dm.Walker.alloc32 {
+				a32[a] = true
+			}
+			if len(a32) > 0 {
+				c.Fail("BND.alloc32", m.Q()+" make([]byte, <uint64 length>)", "a byte slice is allocated with the raw uint64 length while all guards test its int conversion: on 32-bit targets a length >= 2^32 passes the guards and make panics (makeslice: len out of range)", mpos, src)
+			} else {
+				c.Ok("BND.alloc32", m.Q()+" allocations", "every allocation is sized by a guarded int", mpos, src)
+			}
 			for _, f := range m.Fields {
 				arm := dm.Arms[int64(f.Desc.Number())]
 				if arm == nil {
 					continue
 				}
 				nArms++
+				c.Ok("BND.macro", f.Q(), "every buffer access and cursor update of this arm is one of the guarded forms (varint reader, fixed read after (i+k)>l, payload slice after len<0 / end<0 / end>l, Skip block with both guards), each of which keeps 0 <= cursor <= l", posOf(m, c, arm.Pos), src)
 				pos := posOf(m, c, arm.Pos)
 				ex := decExpected(f)
 				// wire types
